@@ -441,6 +441,16 @@ func evalC03Witness(c c03Witness, o *Obs) error {
 		}
 	}
 	o.NT()
+	if c.Codec == "cashaddr-address" { // the pair is judged through DecodeAddress with the explicit prefix
+		i := strings.IndexByte(c.Valid, ':')
+		if i < 1 || !c03AddrAccepts(asciiLower(c.Valid[:i]), c.Valid) {
+			return nil
+		}
+		if diff > 0 && c03AddrAccepts(asciiLower(c.Valid[:i]), c.Corrupted) {
+			return fmt.Errorf("DecodeAddress accepts both %q and %q, which differ in only %d payload positions", c.Valid, c.Corrupted, diff)
+		}
+		return nil
+	}
 	if !c03ImplAccepts(c.Codec, c.Valid) {
 		return nil
 	}
@@ -653,6 +663,118 @@ func acceptedDifferences(ev *Ev, codec string) []uint64 {
 		}
 	}
 	return out
+}
+
+// addressAcceptanceProbe does for DecodeAddress (explicit prefix) what acceptedDifferences does for the raw
+// decoder: for every known prefix p1 it offers the strings whose remainder under p1 differs from a valid
+// address's by d, for d = every single bit and d = the constant by which the remainder under another
+// known prefix p2 differs (a decoder that also tries another prefix accepts exactly those).  For each
+// accepted d it searches the 42-symbol window for an error pattern of weight <= 5 with that syndrome and
+// reports the resulting pair of strings.
+func addressAcceptanceProbe(ev *Ev) {
+	var prefixes []string
+	seen := map[string]bool{}
+	for _, n := range nets {
+		for _, p := range []string{n.Params.CashAddressPrefix, n.Params.SlpAddressPrefix} {
+			if p != "" && !seen[p] {
+				seen[p] = true
+				prefixes = append(prefixes, p)
+			}
+		}
+	}
+	hash := make([]byte, 20)
+	for i := range hash {
+		hash[i] = byte(i*11 + 5)
+	}
+	var probes int64
+	for _, p1 := range prefixes {
+		body := refCashEncode(p1, 0, hash)
+		valid := p1 + ":" + body
+		if !c03AddrAccepts(p1, valid) {
+			continue
+		}
+		w := len(body)
+		syms := make([]byte, w)
+		for i := range syms {
+			syms[i] = byte(symbolOf(body[i]))
+		}
+		cands := []uint64{}
+		for b := 0; b < 40; b++ {
+			cands = append(cands, 1<<uint(b))
+		}
+		for _, p2 := range prefixes {
+			if p2 != p1 {
+				cands = append(cands, implCashRemainder(p2, syms)^implCashRemainder(p1, syms))
+			}
+		}
+		for _, d := range cands {
+			if d == 0 {
+				continue
+			}
+			b := []byte(valid)
+			for j := 0; j < 8; j++ {
+				v := byte(d >> uint(5*j) & 31)
+				b[len(b)-1-j] = b32Charset[syms[w-1-j]^v]
+			}
+			probes++
+			if !c03AddrAccepts(p1, string(b)) {
+				continue
+			}
+			ev.Note("DecodeAddress with prefix %q accepts a remainder that differs by %#x from the valid one", p1, d)
+			// search the window for a pattern of weight <= 5 with syndrome d
+			tab := syndromeTable("cashaddr", w)
+			t2 := buildT2(tab)
+			find := func(x uint64) int {
+				i := sort.Search(len(t2), func(i int) bool { return t2[i].s >= x })
+				if i < len(t2) && t2[i].s == x {
+					return i
+				}
+				return -1
+			}
+			report := func(pv ...int) {
+				e := errVector(w, pv...)
+				cb := []byte(valid)
+				for i := 0; i < w; i++ {
+					if e[i] != 0 {
+						cb[len(p1)+1+i] = b32Charset[syms[i]^e[i]]
+					}
+				}
+				kC03Witness.One(ev, c03Witness{Codec: "cashaddr-address", Valid: valid, Corrupted: string(cb)})
+			}
+			if i := find(d); i >= 0 {
+				a1, b1, a2, b2 := unpackPat(t2[i].p)
+				report(a1, b1, a2, b2)
+				return
+			}
+			for i := range t2 {
+				if j := find(t2[i].s ^ d); j >= 0 {
+					a1, b1, a2, b2 := unpackPat(t2[i].p)
+					c1, d1, c2, d2 := unpackPat(t2[j].p)
+					report(a1, b1, a2, b2, c1, d1, c2, d2)
+					return
+				}
+			}
+			for j1 := 0; j1 < w; j1++ {
+				for j2 := j1 + 1; j2 < w; j2++ {
+					for j3 := j2 + 1; j3 < w; j3++ {
+						for v1 := 1; v1 < 32; v1++ {
+							for v2 := 1; v2 < 32; v2++ {
+								s12 := tab[j1][v1] ^ tab[j2][v2] ^ d
+								for v3 := 1; v3 < 32; v3++ {
+									if i := find(s12 ^ tab[j3][v3]); i >= 0 {
+										a1, b1, a2, b2 := unpackPat(t2[i].p)
+										report(j1, v1, j2, v2, j3, v3, a1, b1, a2, b2)
+										return
+									}
+								}
+							}
+						}
+					}
+				}
+			}
+		}
+	}
+	ev.Bulk("C03:acceptance-probes-DecodeAddress", probes, probes)
 }
 
 // exhaustiveDistance checks that no error pattern of weight <= maxW (4 or 5) on a
@@ -882,11 +1004,15 @@ func TestC03(t *testing.T) {
 		t0 := time.Now()
 		kC03Lin.Run(t, ev, perShard(pick(4000, 400000)))
 		t1 := time.Now()
-		kC03Sub.Run(t, ev, perShard(pick(3000, 300000)))
+		kC03Sub.Run(t, ev, perShard(pick(3000, 150000)))
 		kC03Conc.Run(t, ev, perShard(pick(300, 20000)))
 		t2 := time.Now()
 		if len(ev.violations) > 0 || shard != 0 {
 			return // the enumeration is not seed-dependent: shard 0 runs it on all cores
+		}
+		addressAcceptanceProbe(ev)
+		if len(ev.violations) > 0 {
+			return
 		}
 		exhaustiveDistance(ev, "bech32", 88, 4, 0)
 		t3 := time.Now()
